@@ -174,7 +174,7 @@ Apply0(st, o) ==
     ELSE IF o.op \in {"read", "readline", "readall", "readnum", "readm", "lines"} /\ ~Readable(st.mode)
          THEN R(st, IF o.op = "lines" THEN <<"any">> ELSE <<"fail">>)
     ELSE IF o.op = "write" /\ ~Writable(st.mode) THEN R(st, <<"fail">>)
-    ELSE IF o.op \in {"flush", "setvbuf"} /\ ~Writable(st.mode) THEN R(st, <<"any">>)
+    ELSE IF o.op = "flush" /\ ~Writable(st.mode) THEN R(st, <<"any">>)
     ELSE CASE o.op = "read" ->
                 (IF st.cur >= st.len THEN R([st EXCEPT !.last = "read"], <<"eof">>)
                  ELSE LET e == IF o.a \in RestCounts THEN st.len ELSE IMin(st.cur + o.n, st.len)
@@ -193,6 +193,8 @@ Apply0(st, o) ==
            [] o.op = "write" -> DoWrite(st, o.n)
            [] o.op = "seek" -> DoSeek(st, o.a, o.n)
            [] o.op = "flush" -> R([st EXCEPT !.last = "none", !.pend = FALSE], <<"ok">>)
+           \* Lua 5.1 f_setvbuf reports success for any open file, read-only handles included
+           \* (nothing is buffered there; position and content are unaffected)
            [] o.op = "setvbuf" -> R([st EXCEPT !.buf = o.a, !.bsz = o.n], <<"ok">>)
            [] o.op = "close" -> R([st EXCEPT !.closed = TRUE, !.last = "none", !.pend = FALSE], <<"ok">>)
            [] o.op = "readm" -> ReadM(st, o.fs, 1)
